@@ -57,6 +57,8 @@ class Evaluator:
     def truth(self, e) -> bool:
         if isinstance(e, ast.Constant):
             return bool(e.value)
+        if isinstance(e, ast.Call) and isinstance(e.func, ast.Name) and e.func.id == "bool" and len(e.args) == 1 and not e.keywords:
+            return self.truth(e.args[0])
         if isinstance(e, ast.UnaryOp) and isinstance(e.op, ast.Not):
             return not self.truth(e.operand)
         if isinstance(e, ast.BoolOp):
